@@ -71,6 +71,13 @@ def gen_assign(rng, outs, target):
                 a[sec] = ['out', other]
             elif r < 0.2:
                 a[sec] = ['out', target]          # OUT as its own source
+            elif r < 0.28:
+                # the same cart name reached through a symbolic link and
+                # `..`: a different file than the lexically normalised name
+                a[sec] = ['p8alt', rng.randrange(N_SOURCES)]
+            elif r < 0.36:
+                # a file whose name contains `$NAME` of a set variable
+                a[sec] = ['p8odd', rng.randrange(N_SOURCES)]
             else:
                 a[sec] = [c, rng.randrange(N_SOURCES)]
         elif c == 'none':
@@ -179,6 +186,20 @@ def empty_model():
     return c
 
 
+_ALT = {}
+
+
+def alt_cart(i):
+    """The cart stored as alt/s<i>.p8 (reached as in/link/../s<i>.p8)."""
+    if i not in _ALT:
+        _ALT[i] = refcodec.cart_from_spec({
+            'version': 33,
+            'code': core.enc_bytes(b'-- alt %d\nalt%d_marker=1\n' % (i, i)),
+            'regions': {k: 7000 + i * 16 + j
+                        for j, k in enumerate(refcodec.REGIONS)}})
+    return _ALT[i]
+
+
 def norm_code(b):
     return b.rstrip(b'\n')
 
@@ -196,8 +217,10 @@ def predict(prev, assign, srcs, outs_model, luafile):
             new[key] = empty[key]
         elif a[0] == 'luafile':
             new[key] = luafile
-        elif a[0] in ('p8', 'png'):
+        elif a[0] in ('p8', 'png', 'p8odd'):
             new[key] = srcs[a[1]][key]
+        elif a[0] == 'p8alt':
+            new[key] = alt_cart(a[1])[key]
         elif a[0] == 'out':
             other = outs_model[a[1]]
             new[key] = other[key]
@@ -256,7 +279,7 @@ def execute(sc):
     srcs = [refcodec.cart_from_spec(source_spec(i, sc['seed'] + i))
             for i in range(N_SOURCES)]
     luafile = core.dec_bytes(sc['luafile'])
-    with world.World() as w:
+    with world.World(env={'SND': 'drums'}) as w:
         w.mkdir('in')
         w.mkdir('out')
         written = set()
@@ -341,6 +364,23 @@ def execute(sc):
                     need(rel, lambda rel=rel, cart=cart:
                          refcodec.encode_any(rel, cart))
                     argv += ['--' + sec, A(rel)]
+                elif a[0] == 'p8alt':
+                    # in/link -> ../alt/sub, so in/link/../sN.p8 is alt/sN.p8
+                    w.mkdir('alt/sub')
+                    if not os.path.lexists(w.p('in/link')):
+                        os.symlink('../alt/sub', w.p('in/link'))
+                    need('alt/s%d.p8' % a[1], lambda i=a[1]:
+                         refcodec.encode_p8(alt_cart(i)))
+                    need(_src_rel('p8', a[1]), lambda i=a[1]:
+                         refcodec.encode_p8(srcs[i]))
+                    spelled = A('in/link') + '/../s%d.p8' % a[1]
+                    argv += ['--' + sec, spelled]
+                elif a[0] == 'p8odd':
+                    need('in/$SND-%d.p8' % a[1], lambda i=a[1]:
+                         refcodec.encode_p8(srcs[i]))
+                    need('in/drums-%d.p8' % a[1], lambda:
+                         refcodec.encode_p8(alt_cart(0)))
+                    argv += ['--' + sec, A('in/$SND-%d.p8' % a[1])]
                 elif a[0] == 'out':
                     if outs_model[a[1]] is None:
                         uses_missing_out = True
